@@ -214,6 +214,13 @@ def shared_state(u):
                         continue
                     if base.endswith("params") or base in ("self.problem", "problem", "self.orig_problem", "self.transform", "orig_problem"):
                         u.ensure(f.name in ("__init__", "__post_init__") and base == "self", f"store_to_persistent_input:{f.qualname}:{base}.{n.attr}", desc=f"{f.qualname} stores to {base}.{n.attr} (params / problem / transformation are inputs)")
+            # a one-shot iterator kept on an object is history: the second consumer finds it exhausted
+            for n in ast.walk(f.node):
+                if isinstance(n, ast.Assign) and any(isinstance(t, ast.Attribute) for t in n.targets):
+                    v = n.value
+                    one_shot = isinstance(v, ast.GeneratorExp) or (isinstance(v, ast.Call) and isinstance(v.func, ast.Name) and v.func.id in ("zip", "map", "filter", "iter", "enumerate", "reversed"))
+                    if one_shot:
+                        u.ensure(False, f"one-shot_iterator_stored_on_an_object:{f.qualname}:{ast.unparse(n.targets[0])}", desc=f"{f.qualname} stores `{ast.unparse(v)[:60]}` in {ast.unparse(n.targets[0])}: an iterator is consumed by its first use, so later calls (a second solve on the same Solver) see different data")
             # mutable default arguments must never be written through
             for d in f.node.args.defaults + [x for x in f.node.args.kw_defaults if x is not None]:
                 if isinstance(d, MUTABLE_NODES):
